@@ -1,6 +1,7 @@
 HOOK_COMMITS = ["f2e3e94"]
 NOTES = "Runtime monitoring and sanitizers only. bin/check <id> --tier quick|thorough; VERIF_SEED seeds all random choices. Known findings: /verif/known_findings.json. See DESIGN.md."
 ENGINES = [
+    {"name": "allocation-shadow", "path": "harness/w_contain/src/c15.rs", "serves_properties": ["C15"], "kind_free_text": "interval-set shadow of live allocations, pattern fill, guard bytes, case shrinking"},
     {"name": "container-differential", "path": "harness/w_contain/src/c16.rs", "serves_properties": ["C16"], "kind_free_text": "exhaustive short histories + random long ones against std models, element life table"},
     {"name": "sequential-models", "path": "harness/w_ports/src", "serves_properties": ["C01", "C02", "C08", "C11"], "kind_free_text": "model-based random API histories over local and ipc services; exact reference model compared after every step; canaries; saturation probes; history shrinking"},
     {"name": "stall-sweep", "path": "harness/vkit/src/sched.rs", "serves_properties": ["C03", "C09", "C10", "C12"], "kind_free_text": "real threads; atomics hook stalls one thread at every hooked atomic operation (depth-1 exhaustive, depth-2 sampled, random delays)"},
@@ -71,5 +72,12 @@ META = {
         "level_text": "Exploration, exhaustive inside a stated box: every operation sequence up to length 5/6 per container, storage flavour and capacity 0-4 is compared with a std model after every step; every element's drop is tracked.",
         "level_note": "Exhaustive only for the stated (length, alphabet, capacity) box; random beyond. Relocatable flavours are covered by C14.",
         "design_ref": "DESIGN.md section 4 C16",
+    },
+    "C15": {
+        "engine": "allocation shadow + pattern fill + growth histories + miri + asan",
+        "technique": "allocation shadow with pattern fill and guard bytes over an awkward-layout grid; model-driven segment-growth histories at port level; Miri; ASan",
+        "level_text": "Exploration: millions of random allocator cases over awkward layouts with a shadow interval set, plus port-level histories in which samples are held across repeated growth of a dynamic data segment.",
+        "level_note": "Held on the cases observed only.",
+        "design_ref": "DESIGN.md section 4 C15",
     },
 }
